@@ -21,7 +21,15 @@ pub struct Case {
     pub payload_end: Option<usize>,
     #[serde(with = "hexser")]
     pub expected: Vec<u8>,
+    /// whether finish() after completion must succeed (false: the declared size
+    /// falls inside a copy, so the size is overshot and finish must fail)
+    #[serde(default = "yes")]
+    pub finish_ok: bool,
     pub kind: String,
+}
+
+fn yes() -> bool {
+    true
 }
 
 #[derive(Clone, Debug)]
@@ -43,7 +51,7 @@ fn abs_strategy() -> BoxedStrategy<Abs> {
     (
         abs_lzma_file(30, 20, 20_000),
         abs_muts(3),
-        prop_oneof![3 => Just(0u8), 4 => Just(1u8), 4 => Just(2u8), 1 => Just(3u8)],
+        prop_oneof![3 => Just(0u8), 4 => Just(1u8), 4 => Just(2u8), 1 => Just(3u8), 3 => Just(4u8)],
         prop_oneof![
             3 => prop::collection::vec(any::<u8>(), 1..60),
             1 => prop::collection::vec(Just(0u8), 1..40),
@@ -97,6 +105,7 @@ impl Property for C16 {
         let l = f.output.len() as u64;
         let mut payload_end = None;
         let mut expected = vec![];
+        let mut finish_ok = true;
         let (input, opts, kind) = match a.kind {
             0 => {
                 let o = if file.h13 {
@@ -134,6 +143,29 @@ impl Property for C16 {
                     v.extend_from_slice(&f.bytes[f.header_len..]);
                 }
                 (v, o, "over-long")
+            }
+            4 => {
+                // declared size n <= L, anywhere (symbol boundary or inside a copy)
+                let n = crate::gen::program::pick(a.osel as u16 * 257, 0, l) as usize;
+                let idx = f.table.iter().position(|t| t.produced as usize >= n);
+                let (pe, produced) = match idx {
+                    _ if n == 0 => (f.header_len + 5, 0),
+                    Some(i) => (f.sym_ends[i], f.table[i].produced as usize),
+                    None => (f.bytes.len(), f.output.len()),
+                };
+                payload_end = Some(pe);
+                finish_ok = produced == n;
+                expected = f.output[..n.min(f.output.len())].to_vec();
+                let o = if file.h13 {
+                    Opts::with(USize::ReadHeaderButUseProvided(Some(n as u64)))
+                } else {
+                    Opts::with(USize::UseProvided(Some(n as u64)))
+                };
+                let mut v = f.bytes.clone();
+                if a.extra.len() % 2 == 0 {
+                    v.extend_from_slice(&a.extra);
+                }
+                (v, o, if finish_ok { "short-size(boundary)" } else { "short-size(inside-copy)" })
             }
             _ => (a.extra.clone(), Opts::default(), "random"),
         };
@@ -181,6 +213,7 @@ impl Property for C16 {
             sink_fail_at: a.sink_fail.map(|x| x as usize),
             payload_end,
             expected,
+            finish_ok,
             kind: kind.to_string(),
         }
     }
@@ -195,6 +228,8 @@ impl Property for C16 {
             ("calls after Failed", 10_000 * k),
             ("calls after Complete", 10_000 * k),
             ("failed by sink error", 200 * k),
+            ("input:short-size(inside-copy)", 1000 * k),
+            ("input:short-size(boundary)", 1000 * k),
             ("size reached inside the look-ahead buffer (trailing bytes consumed)", 20 * k),
         ]
     }
@@ -322,10 +357,13 @@ impl Property for C16 {
                 }
             }
             M::Complete(at) => {
-                if !r.finish.is_ok() {
+                if !c.finish_ok {
+                    if r.finish.is_ok() {
+                        return Judgement::violation("overshoot-accepted", what("the declared size falls inside a copy, yet finish succeeds", r.steps.len()));
+                    }
+                } else if !r.finish.is_ok() {
                     return Judgement::violation("complete-stream-finish-fails", what(&format!("finish after completion (call #{}) returns {}", at, r.finish.brief()), r.steps.len()));
-                }
-                if r.out != c.expected {
+                } else if r.out != c.expected {
                     return Judgement::violation("complete-stream-wrong-output", what(&format!("finish after completion: {} bytes, expected {}", r.out.len(), c.expected.len()), r.steps.len()));
                 }
             }
